@@ -9,6 +9,7 @@ import (
 	"math/rand"
 	"os"
 	"strings"
+	"time"
 
 	"verifharness/internal/core"
 	"verifharness/internal/crashlab"
@@ -30,7 +31,10 @@ func init() {
 				"(quick: capped per history by even sampling), plus torn variants of the last write (log: byte cuts at 1, 19, 20, 21, record boundaries +-1, len-1; page: 512-byte sector cuts), the real engine is restarted on every image and every table is read by a plan-level full scan. " +
 				"Oracle: tables == committed transactions in commit order (+ an in-commit transaction wholly or not at all); restart and a post-recovery DML battery must succeed. Bias '" + bias + "'. " +
 				"Non-trivial crash point = restarting the same image WITHOUT its log gives different tables (recovery had real redo/undo work); distinct by (history, prefix, tear)",
-			Assumptions: []string{"crash model of the property: writes are durable in issue order once the call returned; a crash tears at most the last write", "single-goroutine histories: at most one commit in progress at any crash point"},
+			Assumptions: []string{"crash model of the property: writes are durable in issue order once the call returned; a crash tears at most the last write",
+				"three quarters of the histories are single-goroutine (at most one commit in progress at a crash point, deterministic replay); one quarter is driven by 3-6 client goroutines on disjoint rows (plus a concurrent checkpointer), " +
+					"in two thirds of those the recorder does not serialise the engine's I/O calls: a page write is stamped when it is called, a log write when it has returned, so each prefix = every log write that had returned + every page write that had been issued; any subset of the commits in progress may be durable",
+				"concurrent histories are schedule-dependent: their replay files carry the statements and the crash point, not the schedule"},
 			NumCases: func(env *core.Env) int {
 				if env.Thorough() {
 					return 320
@@ -92,7 +96,7 @@ func describeHistory(h *crashlab.History) map[string]any {
 	if len(log) > 60 {
 		log = append(append([]string{}, log[:60]...), fmt.Sprintf("... %d more statements", len(h.StmtLog)-60))
 	}
-	return map[string]any{"memKB": h.P.MemKB, "tables": h.P.Tables, "row_sizes": h.P.RowSizes, "max_open": h.P.MaxOpen, "checkpoints": h.P.Checkpoint, "statements": log, "events": len(h.Events)}
+	return map[string]any{"memKB": h.P.MemKB, "clients": h.P.Clients, "unserialised_io": h.P.ConcurrentIO, "tables": h.P.Tables, "row_sizes": h.P.RowSizes, "max_open": h.P.MaxOpen, "checkpoints": h.P.Checkpoint, "statements": log, "events": len(h.Events)}
 }
 
 func eventDesc(e *rec.Event) string {
@@ -167,7 +171,27 @@ func crashCase(env *core.Env, idx int, prop, bias string) *core.CaseResult {
 	r := env.Rand(idx)
 	res := core.NewResult()
 	p := crashParams(r, env, bias)
-	h, fatal := crashlab.Run(r, fmt.Sprintf("%s/hist_%d", env.TmpDir, idx), p)
+	conc := idx%4 == 1
+	var h *crashlab.History
+	var fatal string
+	if conc {
+		// a quarter of the histories are driven by several client goroutines (disjoint rows per client)
+		p.Clients = 3 + r.Intn(4)
+		p.MemKB = []int{128, 192, 256, 1024}[r.Intn(4)]
+		if p.Clients > 4 && p.MemKB < 192 {
+			p.MemKB = 192
+		}
+		p.MaxOpen = p.Clients
+		p.ConcurrentIO = r.Intn(3) != 0
+		p.LogDelay = []time.Duration{0, 100 * time.Microsecond, 500 * time.Microsecond}[r.Intn(3)]
+		p.ThinkTime = []time.Duration{0, 200 * time.Microsecond}[r.Intn(2)]
+		p.Steps = p.Steps * 3 / 2
+		h, fatal = crashlab.RunConcurrent(r, fmt.Sprintf("%s/hist_%d", env.TmpDir, idx), p)
+		res.Add("concurrent_histories", 1)
+		res.Add("concurrent_history_clients", int64(p.Clients))
+	} else {
+		h, fatal = crashlab.Run(r, fmt.Sprintf("%s/hist_%d", env.TmpDir, idx), p)
+	}
 	for k, v := range h.Stats {
 		res.Add("history_"+k, v)
 	}
@@ -246,6 +270,12 @@ func crashCase(env *core.Env, idx int, prop, bias string) *core.CaseResult {
 		for _, t := range p.Tables {
 			tags = append(tags, "via-"+t.Via)
 		}
+		if conc {
+			tags = append(tags, "concurrent-history")
+			if v.OK && strings.Count(v.Matched, "+") > 1 {
+				res.Add("crash_points_with_several_commits_in_progress_matched", 1)
+			}
+		}
 		mine := v.C01
 		other := v.C02
 		if prop == "C02" {
@@ -303,7 +333,7 @@ func crashCase(env *core.Env, idx int, prop, bias string) *core.CaseResult {
 			// torn variants of event k (image = prefix k-1 + part of e)
 			if nPoint%tornEvery == 0 {
 				for _, cut := range tearCuts(e, env.Thorough()) {
-					if prop == "C02" && e.Kind == rec.WritePage {
+					if (prop == "C02" || conc) && e.Kind == rec.WritePage {
 						continue // C02 quantifies over prefixes of the I/O trace; torn page writes are C01's quantifier (listed finding there)
 					}
 					t := im.Clone()
